@@ -15,7 +15,7 @@ from vmc import space
 
 date = datetime.date
 
-FAMILIES = ("nested", "inherit", "generic", "mutual", "formats")
+FAMILIES = ("nested", "inherit", "generic", "mutual", "formats", "helpers")
 LATE = "late"      # parent defined first; the subclass is defined by an operation of the history (C13)
 
 
@@ -62,6 +62,15 @@ INNER = """@dataclass
 class Inner:
     a: date
     z: Optional[int] = None
+class TD(TypedDict):
+    d: date
+    n: NotRequired[int]
+class NT(NamedTuple):
+    d: date
+    n: int = 0
+class TDB(TypedDict):
+    d: date
+    b: bytes
 """
 
 
@@ -77,6 +86,12 @@ def source(family, mode, support, config_dialect=None):
                   f"    al: int = field(default=3, metadata=field_options(alias='AL'))\n{cfg}")
         chunks = [holder, INNER] if post else [INNER, holder]
         roles = ["H"]
+    elif family == "helpers":
+        # td / nt / u: kinds whose (un)packers are separate generated helper methods stored on the class by name
+        holder = (f"@dataclass\nclass HH(DataClassDictMixin):\n    d: date\n"
+                  f"    td: Optional[{q('TD')}] = None\n    nt: Optional[{q('NT')}] = None\n    u: typing.Union[date, int] = 5\n{cfg}")
+        chunks = [holder, INNER] if post else [INNER, holder]
+        roles = ["HH"]
     elif family == "inherit":
         c0 = (f"@dataclass\nclass C0(DataClassDictMixin):\n    d: date\n    o: Optional[int] = None\n"
               f"    al: int = field(default=3, metadata=field_options(alias='AL'))\n{cfg}")
@@ -102,7 +117,7 @@ def source(family, mode, support, config_dialect=None):
         roles = ["C0", "C"]
     elif family == "formats":
         f = (f"@dataclass\nclass F(DataClassORJSONMixin, DataClassMessagePackMixin):\n    d: date\n    b: bytes\n"
-             f"    i: Optional[{q('Inner')}] = None\n{cfg}")
+             f"    i: Optional[{q('Inner')}] = None\n    td: Optional[{q('TDB')}] = None\n{cfg}")
         chunks = [f, INNER] if post else [INNER, f]
         roles = ["F"]
     else:
@@ -147,6 +162,8 @@ class Family:
         ns = self.ctx.ns
         if role == "H":
             return ns["H"](i=ns["Inner"](date(2021, 3, 4)), d=date(2020, 1, 2), o=None)
+        if role == "HH":
+            return ns["HH"](d=date(2020, 1, 2), td={"d": date(2022, 1, 1)}, nt=ns["NT"](date(2022, 2, 2)), u=date(2023, 3, 3))
         if role == "C0":
             return ns["C0"](d=date(2020, 1, 2), o=None)
         if role == "C" and self.family == "late":
@@ -165,7 +182,7 @@ class Family:
         if role == "MB":
             return ns["MB"](a=ns["MA"](ns["MB"]()), d=date(2019, 9, 9))
         if role == "F":
-            return ns["F"](d=date(2020, 1, 2), b=b"\x00\xffab", i=ns["Inner"](date(2021, 3, 4)))
+            return ns["F"](d=date(2020, 1, 2), b=b"\x00\xffab", i=ns["Inner"](date(2021, 3, 4)), td={"d": date(2022, 1, 1), "b": b"\x01\xfe"})
         raise ValueError(role)
 
 
